@@ -448,13 +448,8 @@ def panics_key(name):
     return panics.norm_key(name)
 
 
-def repolls_source(fn, poll_re):
-    """R15.12 on one `next()`: (polls found, every poll is dominated by a test of a bool field of self that is set on a path
-    after a poll)"""
-    polls = [bi for bi, t in fn.calls() if call_name_matches(t, poll_re)]
-    if not polls:
-        return False, False
-    # bool fields of self that are written `true` somewhere
+def flag_fields_set(fn):
+    """bool fields of self that are written `true` somewhere in fn"""
     set_fields = set()
     for b in fn.blocks:
         for st in b["s"]:
@@ -462,6 +457,18 @@ def repolls_source(fn, poll_re):
                 o = fn.origin(st[2][1]) if st[2][1][0] != "k" else ("const", st[2][1][1])
                 if o[0] == "const" and o[1].get("ty") == "bool" and o[1].get("v") == "1":
                     set_fields.add(str(st[1][-1]))
+    return set_fields
+
+
+def repolls_source(fn, poll_re, set_fields=None):
+    """R15.12 on one `next()`: (polls found, every poll is dominated by a test of a bool field of self that is set on a path
+    after a poll).  With `set_fields` given (the flags another method of the same type sets): the same test for that method's
+    calls, e.g. the source's size hint asked by `size_hint()`."""
+    polls = [bi for bi, t in fn.calls() if call_name_matches(t, poll_re)]
+    if not polls:
+        return False, False
+    if set_fields is None:
+        set_fields = flag_fields_set(fn)
     guarded = True
     for pb in polls:
         ok = False
@@ -508,6 +515,89 @@ def source_iterator_rule(ck, facts):
                        "buffer, whatever the source answered before: after an error the items after the fault are delivered (N-Triples), or "
                        "the same Err is yielded for ever (Turtle: count() never returns)" % f.name, f.loc)
     ck.floor("R15.12", "iterator faces of source adapters", n, 2)
+    # R15.11 (continued): once the flag is set the source is never polled again, so its hint must not be announced any more
+    ck.control("R15.11", "Polling::pos_stale_hint", repolls_source(core.fixture_fn("Polling::<I>::pos_stale_hint"), r"Iterator>?::size_hint$",
+                                                                   {"f1:done"}) == (True, False))
+    ck.control("R15.11", "Polling::neg_hint_while_live", repolls_source(core.fixture_fn("Polling::<I>::neg_hint_while_live"), r"Iterator>?::size_hint$",
+                                                                       {"f1:done"}) != (True, True), expect=False)
+    m = 0
+    for f in sorted(facts.fns.values(), key=lambda x: x.id):
+        mm = re.search(r"^(<?source::(map|filter_map)::\w+SourceIterator<.*> as std::iter::Iterator>::)size_hint$", f.name)
+        if f.crate == "sophia_api" and mm:
+            nxt = [g for g in facts.fns.values() if g.name == mm.group(1) + "next"]
+            fields = flag_fields_set(nxt[0]) if len(nxt) == 1 else set()
+            if not fields:
+                continue            # no done flag: R15.12 reports that
+            m += 1
+            found, ok = repolls_source(f, r"Source>?::size_hint_\w+$", fields)
+            if not found or ok:
+                ck.ok("R15.11", "%s does not announce the items of a source it will not poll again" % f.name.split(" as ")[0].lstrip("<"))
+            else:
+                ck.bad("R15.11", "R15.11@%s#stale-hint-after-done" % panics_key(f.name), "%s adds the hint of the wrapped source even after the flag that "
+                       "stops the polling is set: after yielding the Err of item k it still announces the n-k-1 items behind the fault "
+                       "(a lower bound above what is left breaks the size_hint contract), then returns None for ever" % f.name, f.loc)
+    ck.floor("R15.11", "size hints of adapters with a done flag", m, 2)
+
+
+def unfinished_returns(fn, start, finish_re, sink_variant="SinkError"):
+    """return blocks reachable from `start` without passing a call matching finish_re and without taking the edge of a `match` arm
+    for the variant `sink_variant` (after a sink error the writer is failing: nothing more can be written)"""
+    fin = {bi for bi, t in fn.calls() if call_name_matches(t, finish_re)}
+    seen, todo = set(), [start]
+    while todo:
+        b = todo.pop()
+        if b in seen or b in fin:
+            continue
+        seen.add(b)
+        t = fn.blocks[b]["t"]
+        skip = set()
+        if t["t"] == "switch":
+            names = (t.get("variants") or {}).get("names") or {}
+            for v, tb in t["vals"]:
+                if names.get(v) == sink_variant:
+                    skip.add(tb)
+            listed = {v for v, _ in t["vals"]}
+            if names and {n for v, n in names.items() if v not in listed} == {sink_variant}:
+                skip.add(t["else"])         # `Err(e) => return Err(e)` after the source arm: the catch-all is the sink variant
+        for nb in fn.succs(b):
+            if nb in skip:
+                continue
+            todo.append(nb)
+    return sorted(r for r in fn.ret_blocks() if r in seen)
+
+
+def formatter_finished_rule(ck, facts):
+    """R15.14: the streaming serializers built on rio's formatters write the end of the last statement (and of the open graph / element)
+    only in `finish()`: it must be called on every path that follows `rio_format_triples|quads`, including the one that returns the
+    source's error, or the k items consumed before the fault are left as an unterminated document.  Only a sink error (the writer
+    itself is failing) may return without it."""
+    import core
+    for name, expect in (("pos_unfinished_on_source_error", True), ("neg_finished_on_source_error", False), ("neg_finished_before_deciding", False)):
+        f = core.fixture_fn(name)
+        st = [t["to"] for _, t in f.calls() if call_name_matches(t, r"feed_formatter$")]
+        ck.control("R15.14", name, len(st) == 1 and unfinished_returns(f, st[0], r"FixFormatter::finish$", "Sink"), expect)
+    n = 0
+    for f in sorted(facts.fns.values(), key=lambda x: x.id):
+        if f.crate not in ("sophia_turtle", "sophia_xml") or f.kind == "Closure":
+            continue
+        for bi, t in f.calls():
+            if not call_name_matches(t, r"serializer::rio_format_(triples|quads)$"):
+                continue
+            n += 1
+            short = f.name.split(" as ")[0].lstrip("<")
+            fins = [b for b, tt in f.calls() if call_name_matches(tt, r"Formatter>?::finish$|Formatter::<W>::finish$")]
+            if not fins:
+                ck.bad("R15.14", "R15.14@%s#anchor" % panics_key(short), "anchor-missing: no finish() of the rio formatter in %s" % short, f.loc)
+                continue
+            rets = unfinished_returns(f, t["to"], r"Formatter>?::finish$|Formatter::<W>::finish$")
+            if rets:
+                ck.bad("R15.14", "R15.14@%s#unfinished-after-source-error" % panics_key(short), "%s returns the error of rio_format_* without calling "
+                       "the formatter's finish(): when the source fails at item k >= 1 the output stops inside the last statement "
+                       "(`<s0> <p0> <o0>` with no ` .`, an open `<g> {`, unclosed rdf:Description / rdf:RDF), so the items consumed before the "
+                       "fault cannot be read back" % short, "%s:%s" % (t["file"], t["line"]))
+            else:
+                ck.ok("R15.14", "%s finishes the rio formatter on every path but a sink error" % short)
+    ck.floor("R15.14", "streaming serializers built on rio formatters", n, 3)
 
 
 def owned_writer_flush_rule(ck, facts):
@@ -541,6 +631,10 @@ def run(ck, facts, tier):
                          ("pos_drop_on_early_return", True), ("neg_propagate", False), ("neg_match_err", False)):
         hits = [how for _, _, how in errflow.dropped_results(core.fixture_fn(name))]
         ck.control("R15.1", name, bool(hits), expect, note="; ".join(hits)[:120])
+    for name, expect in (("pos_drop_unused_then_ok", True), ("neg_drop_on_error_path", False)):
+        f = core.fixture_fn(name)
+        hits = [how for _, t, how in errflow.dropped_results(f) if not (how.startswith("never used") and errflow.only_error_returns_follow(f, t["to"]))]
+        ck.control("R15.1", name, bool(hits), expect, note="; ".join(hits)[:120])
     fns = sorted((f for f in facts.fns.values() if in_scope(f)), key=lambda f: f.id)
     ck.floor("R15.1", "functions in the stream/serializer scope", len(fns), 400)
     results = 0
@@ -552,6 +646,10 @@ def run(ck, facts, tier):
             callee = t["f"].get("name", "?")
             if re.search(VALUE_ATTEMPTS, callee):
                 ck.ok("R15.1", "%s: %s is a value-conversion attempt (its failure selects a fallback), not a stream error" % (fn.name, callee), nontrivial=False)
+                continue
+            if how.startswith("never used") and errflow.only_error_returns_follow(fn, t["to"]):
+                ck.ok("R15.1", "%s: the Result of %s is dropped on a path that can only return Err (clean-up after the first error, which is the "
+                               "one reported)" % (fn.name, callee), nontrivial=False)
                 continue
             ck.bad("R15.1", "R15.1@%s#%s" % (fn.name, callee.split("::")[-1]),
                    "the Result of %s is %s" % (callee, how), "%s:%s" % (t["file"], t["line"]))
@@ -581,6 +679,7 @@ def run(ck, facts, tier):
     sink_error_rules(ck, facts, fns)
     source_iterator_rule(ck, facts)
     owned_writer_flush_rule(ck, facts)
+    formatter_finished_rule(ck, facts)
     n = writer_rule(ck, facts)
     ck.floor("R15.5", "line-oriented serializer closures", n, 2)
     ck.assumptions = ["position bookkeeping inside rio_turtle/rio_xml/json-ld is not decided",
